@@ -1029,7 +1029,7 @@ macro_rules! impl_shifts {({$($rhs:ty),+}) => {
     $(
         impl ShlAssign<$rhs> for Bvd {
             fn shl_assign(&mut self, rhs: $rhs) {
-                let shift = usize::try_from(rhs).map_or(0, |s| s);
+                let shift = usize::try_from(rhs).map_or(usize::MAX, |s| s);
                 if shift == 0 {
                     return;
                 }
@@ -1076,7 +1076,7 @@ macro_rules! impl_shifts {({$($rhs:ty),+}) => {
         impl Shl<$rhs> for &Bvd {
             type Output = Bvd;
             fn shl(self, rhs: $rhs) -> Bvd {
-                let shift = usize::try_from(rhs).map_or(0, |s| s);
+                let shift = usize::try_from(rhs).map_or(usize::MAX, |s| s);
                 let mut new_data: Vec<u64> = repeat(0).take(Bvd::capacity_from_bit_len(self.length)).collect();
                 let mut new_idx = self.length;
                 while new_idx > shift {
@@ -1102,7 +1102,7 @@ macro_rules! impl_shifts {({$($rhs:ty),+}) => {
 
         impl ShrAssign<$rhs> for Bvd {
             fn shr_assign(&mut self, rhs: $rhs) {
-                let shift = usize::try_from(rhs).map_or(0, |s| s);
+                let shift = usize::try_from(rhs).map_or(usize::MAX, |s| s);
                 if shift == 0 {
                     return;
                 }
@@ -1149,7 +1149,7 @@ macro_rules! impl_shifts {({$($rhs:ty),+}) => {
         impl Shr<$rhs> for &Bvd {
             type Output = Bvd;
             fn shr(self, rhs: $rhs) -> Bvd {
-                let shift = usize::try_from(rhs).map_or(0, |s| s);
+                let shift = usize::try_from(rhs).map_or(usize::MAX, |s| s);
                 let mut new_data: Vec<u64> = repeat(0).take(Bvd::capacity_from_bit_len(self.length)).collect();
                 let mut new_idx = 0;
                 while new_idx + shift < self.length {
